@@ -357,6 +357,12 @@ RULESETS = {
     "pade": PADE,
     "padeb": PADE_B,
     "expm_tail": EXPM_TAIL,
+    "solvepq": [
+        Rule("spq.perm.decl", r'SQUIDS_THREAD_LOCAL\s+gsl_permutation_holder\s+(\w+)\s*;', r'struct perm* \1=&\1_s;', min=1),
+        Rule("spq.perm.reset", r'\bper\.reset\s*\(', 'perm_reset(per,', min=1),
+        Rule("spq.holder.reset", r'\b(P|Q)\.reset\s*\(', r'holder_reset(\1,', min=2),
+        Rule("spq.holder.use", r'(?<![\w.>&])(P|Q)(?=\s*[,)])', r'(&\1->m)', min=4),
+    ],
     "suwrap": [
         Rule("wrap.get.v", r'(?<![\w.>])v\.GetGSLMatrix\s*\(\s*(\w+)\s*\)\s*;', r'su_GetGSLMatrix_into(v,\1);'),
         Rule("wrap.get.new", r'const\s+SU_vector&\s*suv1\s*=\s*\*\s*this\s*;\s*auto\s+m\s*=\s*suv1\.GetGSLMatrix\s*\(\s*\)\s*;', 'gsl_matrix_complex* m=su_GetGSLMatrix_new(self);'),
